@@ -2,7 +2,7 @@ CONSTANTS
   Mode = "recs"
   NVs = {0}
   MaxTris = 0
-  MaxRecs = 4
+  MaxRecs = 5
 SPECIFICATION Spec
 INVARIANTS Layout InBudget Emit
 CHECK_DEADLOCK FALSE
